@@ -116,6 +116,17 @@ class Models(object):
         return None
 
     def len_of(self, ev, v):
+        if v.op in ("ite", "push"):
+            # lists built by conditional pushes are DAGs with heavy sharing: one visit per node
+            memo = self.__dict__.setdefault("_len_memo", {})
+            r = memo.get(v.id)
+            if r is None:
+                r = self._len_of(ev, v)
+                memo[v.id] = r
+            return r
+        return self._len_of(ev, v)
+
+    def _len_of(self, ev, v):
         if v.op == "seq":
             return tm.num(len(v.a))
         if v.op == "rep":
